@@ -554,6 +554,15 @@ func (c13) Shrinks(ci interface{}) []interface{} {
 			n.Recs = c.Recs[:maxJ+1]
 			out = append(out, &n)
 		}
+		for i, cs := range c.Chunks {
+			if !cs.EndAtEnd {
+				// the End as reported is the simpler form
+				n := *c
+				n.Chunks = append([]chunkSpec(nil), c.Chunks...)
+				n.Chunks[i].EndAtEnd = true
+				out = append(out, &n)
+			}
+		}
 		if c.Iter {
 			n := *c
 			n.Iter = false
